@@ -536,6 +536,17 @@ func (root *Root) replaceArgVars(vars map[string]interface{}, v interface{}, at 
 	return
 }
 
+// isQueryType returns true if the type is the query root operation type of
+// the schema.
+func (root *Root) isQueryType(t Type) bool {
+	if root.schema != nil {
+		if fd := root.schema.fields.get(string(OpQuery)); fd != nil {
+			return fd.Type == t
+		}
+	}
+	return t.Name() == "Query"
+}
+
 // copyValue makes a deep copy of the maps and lists of a value.
 func copyValue(v interface{}) interface{} {
 	switch tv := v.(type) {
@@ -573,14 +584,13 @@ func (root *Root) resolveField(
 		Errors(ea).in(field.key())
 		return
 	}
-	const queryType = "Query"
 	var ea2 []error
 	switch field.Name {
 	case "__typename":
 		result[field.key()] = t.Name()
 		return nil
 	case "__type":
-		if t.Name() == queryType {
+		if root.isQueryType(t) {
 			var fv interface{} // field value
 			var av *ArgValue
 
@@ -612,7 +622,7 @@ func (root *Root) resolveField(
 		ea = append(ea, resWarnp(field, "__type meta-field is only on the query object"))
 		return
 	case "__schema":
-		if t.Name() == queryType {
+		if root.isQueryType(t) {
 			var fv interface{} // field value
 
 			fv, ea2 = root.resolve(root, vars, field, root.uuSchemaType, depth)
